@@ -195,6 +195,10 @@ def run(ctx: Ctx) -> None:
         und = None
         n = 0
         exit_bb = Tok("exit")
+        holder = next((b for nn in ast.walk(leak_loop) for b in (getattr(nn, "body", None), getattr(nn, "orelse", None))
+                       if isinstance(b, list) and any(x is ul[0] for x in b)), [ul[0]])
+        prelude = [st for st in holder[: next(i for i, x in enumerate(holder) if x is ul[0])]
+                   if isinstance(st, ast.Assign) and len(st.targets) == 1 and isinstance(st.targets[0], ast.Name) and st.targets[0].id not in ("x",)]
         for k in (0, 1, 2):
             for member in itertools.product((False, True), repeat=k):
                 for in_exit in (False, True):
@@ -204,6 +208,13 @@ def run(ctx: Ctx) -> None:
                     env = {"x": "x", "bb": Tok("bb", successors=succs, dummy_successors=[]), "live_before": lb, "cfg": Tok("cfg", exit_bb=exit_bb)}
                     n += 1
                     try:
+                        # plain assignments that precede the definition in the same block may define what it reads
+                        # (`live_in_succs = [...]`): interpret those that are evaluable, in order
+                        for st in prelude:
+                            try:
+                                ev.run([st], env)
+                            except (Unsupported, Raised):
+                                env.pop(st.targets[0].id, None)
                         got = ev.ev(ul[0].value, env)
                     except (Unsupported, Raised) as e:
                         und = str(e)
